@@ -245,6 +245,46 @@ def insertSorted (x : Name) : List Name → List Name
 /-- Sorted, duplicate-free list of the members of `l`. -/
 def sortDedup (l : List Name) : List Name := l.foldr insertSorted []
 
+/-! ### The general rule (validated against `compile()` on random nestings of function scopes by the
+`c09.scopes` correspondence); `factoryFreevars` / `entityFreevars` below are its instances for the
+three-level nesting `outer_factory ⊃ inner_factory ⊃ entity` (`Props/C09.lean: C09_resolution_*`). -/
+
+/-- A function scope: the names it binds (parameters, assignment / `def` / `for` targets, minus those it
+declares `nonlocal` or `global`), the names it declares `global`, the names it mentions itself (loads,
+`nonlocal` declarations, the implicit `__class__` of `super`), and the function scopes nested in it. -/
+inductive Scope where
+  | mk (bound : List Name) (globalDecls : List Name) (uses : List Name) (children : List Scope)
+
+mutual
+/-- Names mentioned in the scope or below that the scope does not resolve itself. -/
+def Scope.freeNames : Scope → List Name
+  | .mk bound gl uses children =>
+    (Scope.freeNamesList children ++ uses).filter (fun x => !decide (x ∈ bound) && !decide (x ∈ gl))
+def Scope.freeNamesList : List Scope → List Name
+  | [] => []
+  | s :: ss => s.freeNames ++ Scope.freeNamesList ss
+end
+
+/-- `co_freevars` of the scope's code object; `env` = the names bound by enclosing *function* scopes (and
+not cut off by a `global` declaration on the way). -/
+def Scope.coFreevars (env : List Name) (s : Scope) : List Name :=
+  sortDedup (s.freeNames.filter (fun x => decide (x ∈ env)))
+
+/-- The environment the scope passes to its children. -/
+def Scope.childEnv (env : List Name) : Scope → List Name
+  | .mk bound gl _ _ => env.filter (fun x => !decide (x ∈ gl)) ++ bound
+
+mutual
+/-- `co_freevars` of every code object of the nesting, in preorder. -/
+def Scope.allFreevars (env : List Name) : Scope → List (List Name)
+  | .mk bound gl uses children =>
+    Scope.coFreevars env (.mk bound gl uses children)
+      :: Scope.allFreevarsList (env.filter (fun x => !decide (x ∈ gl)) ++ bound) children
+def Scope.allFreevarsList (env : List Name) : List Scope → List (List Name)
+  | [] => []
+  | s :: ss => s.allFreevars env ++ Scope.allFreevarsList env ss
+end
+
 /-- Names local to the inner factory: its parameters and the entity it defines. -/
 def innerBound (extraLocals : List Name) (entityName : Name) : List Name := extraLocals ++ [entityName]
 
@@ -264,6 +304,16 @@ def entityFreevars (declared : List Name) (innerFactoryName : Name) (extraLocals
     List Name :=
   sortDedup (e.bodyRefs.filter (fun x =>
     decide (x ∈ innerBound extraLocals e.name) || decide (x ∈ outerBound declared innerFactoryName)))
+
+/-- The inner factory of the generated module as a scope: binds its parameters and the entity, evaluates the
+entity's `def`-time expressions and `return`s the entity; `entityScope` is the entity's own scope tree. -/
+def innerFactoryScope (extraLocals : List Name) (e : Entity) (entityScope : Scope) : Scope :=
+  .mk (innerBound extraLocals e.name) [] (e.defTimeRefs ++ [e.name]) [entityScope]
+
+/-- The outer factory: binds one dummy per declared closure variable and the inner factory, returns the latter. -/
+def outerFactoryScope (declared : List Name) (innerFactoryName : Name) (extraLocals : List Name) (e : Entity)
+    (entityScope : Scope) : Scope :=
+  .mk (outerBound declared innerFactoryName) [] [innerFactoryName] [innerFactoryScope extraLocals e entityScope]
 
 /-! ## `_PythonFnFactory` -/
 
